@@ -4,17 +4,25 @@ chk("C02", "proof",
     "time; for the corrected transcription two rational times that no significant time separates give EQUAL snapshots (hence the "
     "snapshot at t is the snapshot at the greatest significant time not after t) for every document, by rose-tree induction; for "
     "the code's own list the same under the executable trigger of the recorded finding (refuted otherwise, Findings/C02.v); the "
-    "generated sequence is the list of snapshots at those times. The models are tied to the code by differential runs (sig list here, "
+    "generated sequence is the list of (cached) snapshots at those times, each rendering like the snapshot computed without the cache, and "
+    "the entry at the greatest significant time not after t renders like the snapshot at t (C02_timeline_partial: well-formed documents, "
+    "outside the two recorded triggers). The models are tied to the code by differential runs (sig list here, "
     "snapshots under C01) and the specification is checked on the code itself by probes strictly between consecutive times.",
     "Trusted: Coq kernel; harness literal printer; that the transcription marks every use of t (checked by correspondence only). "
-    "Recorded finding: animation steps offset by the parent's interval. The multiprocessing branch is not reachable/modelled.",
+    "Recorded finding: animation steps offset by the parent's interval (the 2-line repair was re-tried in the deepening phase: "
+    "test_isd.ContentDocument0Test.test_significant_times pins the behaviour, 445/446). The multiprocessing branch is not reachable/modelled.",
     "Coq theorems by rose-tree induction over Q + differential runs + between-times probes on the code", "DESIGN.md section 5 C02")
 chk("C01", "proof",
     "Coq theorems (coq/Properties/C01.v) about the transcription of ISD._process_element: time containment (begin inclusive, end "
-    "exclusive, relative to the parent, clipped), and — see the file for the exact list — the leaves of a snapshot region equal the "
-    "per-leaf TTML2 specification (chain active, region-selected, not display:none). The transcription (whole snapshot: structure, ids, "
+    "exclusive, relative to the parent, clipped), display cascade, conservative white-space handling, and the top-level statement "
+    "C01_snapshot: for every document satisfying the content model the model API enforces (Spec/DocWf.v — this discharges the former "
+    "hypothesis `br/text are leaves`), every rational time and every snapshot produced, region by region in region order each source "
+    "region (or the default region) either appears under its own id showing exactly the leaves of the per-leaf TTML2 specification "
+    "(chain active, region-selected, not display:none; once each, in document order) or is absent and the specification prescribes no "
+    "leaf for it. The transcription (whole snapshot: structure, ids, "
     "text, all computed styles) is compared with ISD.from_model on generated documents x boundary/epsilon/midpoint times inside Coq, and "
     "the specification is evaluated in Coq on the implementation's own snapshots.",
-    "Trusted: Coq kernel; harness literal printer; Spec/IsdSpec.v as a reading of TTML2 ISD construction. Well-formed documents only. "
+    "Trusted: Coq kernel; harness literal printer; Spec/IsdSpec.v as a reading of TTML2 ISD construction; Spec/DocWf.v as what model.py "
+    "enforces (evaluated on every generated document). "
     "Recorded finding: snapshots raise when a ruby child is pruned.",
     "Coq theorems by rose-tree induction + in-Coq differential evaluation of model and spec on generated documents", "DESIGN.md section 5 C01")
